@@ -42,6 +42,15 @@ def queries(tier):
                 continue
             qs.append(sq("closed_%s_%s_calls%d" % (sn, fn, nc), "harness/C10_closed.c", defs=["FAMILY=" + fam, "STREAM=%d" % st, "NCALLS=%d" % nc],
                          faults=0, funcs=FUNCS, bounds={"io_calls_after_close": nc, "pre_state": "fresh|bound|listening|connected"}))
+    # the same in a process whose descriptors 0.. are free: p_socket_new / accept legitimately get descriptor 0
+    qs.append(sq("closed_stream_v4_calls%d_fd0" % nc, "harness/C10_closed.c", defs=["FAMILY=" + V4, "STREAM=1", "NCALLS=%d" % nc, "VS_FD0=0", "VS_ROT=5"],
+                 faults=0, funcs=FUNCS, bounds={"io_calls_after_close": nc, "first_descriptor": 0}))
+    qs.append(sq("cloexec_stream_v4_protodefault_fd0", "harness/C10_cloexec.c", defs=["FAMILY=" + V4, "STREAM=1", "PROTO_DEFAULT", "VS_FD0=0"],
+                 faults=1, funcs=FUNCS, bounds={"faults_per_call": 1, "first_descriptor": 0}))
+    qs.append(sq("cloexec_stream_v4_protodefault_accept_gets_fd0", "harness/C10_cloexec.c", defs=["FAMILY=" + V4, "STREAM=1", "PROTO_DEFAULT", "VS_FD0=0", "VS_ROT=4"],
+                 faults=1, funcs=FUNCS, bounds={"faults_per_call": 1, "first_descriptor": 0, "slot_rotation": 4}))
+    qs.append(sq("seq_dgram_v4_L3_F0_fd0", "harness/C10_seq.c", defs=["FAMILY=" + V4, "STREAM=0", "L=3", "VS_FD0=0"], faults=0, funcs=FUNCS,
+                 bounds={"calls": 3, "alphabet": 13, "first_descriptor": 0}))
     # timeouts / non-blocking: one call that cannot proceed
     for op, nm in ((1, "receive"), (2, "send"), (3, "accept"), (4, "connect"), (5, "io_condition_wait"), (6, "receive_from_dgram")):
         qs.append(sq("timeout_%s_F%d" % (nm, F), "harness/C10_timeout.c", defs=["OP=%d" % op], faults=F, funcs=FUNCS,
